@@ -456,8 +456,84 @@ Definition model_root_sch (once : bool) (W : Eval.world) (name : string) (d : Ev
                             else Chain.merged_schema Chain.sch_fuel (Some (Chain.top_sch rest)) (Chain.top_sch c)
              end).
 
+(* ---- the class in which the model's schema bookkeeping is NOT faithful: schemas that depend on the merge HISTORY ----------
+   In Go every *value carries ONE mutable [schema] field.  value.merge (eval/value.go:225-255) ends with
+       v.schema = mergedSchema(v.base.schema, v.schema)                                              (value.go:254)
+   every time the value is merged - also when its base did not change: the parent's merge re-merges every property
+   (value.go:247-251), and for a property that already sits on that base only the structural part returns early
+   (value.go:226) while every value above the base is re-merged.  copier.copy (value.go:471-478) hands the already-merged
+   schema on to the copy a reference makes (eval.go:637), and evaluateExpr (eval.go:552) merges the copy AGAIN with the base
+   of the referencing key.  mergedSchema is idempotent except in one place (value.go:406-414): a non-nil
+   additionalProperties of the base is taken over by a top that has none, and two non-nil ones become `true`.  So a value
+   that has absorbed its base's additionalProperties and is merged once more reports `true` where one merge reports the
+   base's schema, and HOW OFTEN a value has been merged depends on the history:
+     (a) a reference copies a value that has absorbed, and the referencing key has a base of its own (any base: `v2: 1` is
+         enough) - selftest/witness/C06-model-schema-disagreement.replay.json, minimal: history/min1;
+     (b) the memoised expr.value of a member is re-merged IN PLACE when its parent object completes; a reference evaluated
+         after that sees the re-merged schema, one evaluated before it (key order) does not - minimal: history/min2 / min2n;
+   The model keeps the ORIGINAL schema in every layer, recomputes [chain_sch] and pictures a re-merge by REPEATED layers
+   (a member's chain already ends in its base, [property] through the parent appends that base again).  That agrees with Go
+   as long as nothing absorbs: the additionalProperties of n layers combine as nil / the one non-nil / `true`, whatever the
+   grouping.  It does not follow (a) and (b), and it has an artefact of its own:
+     (c) where the repeated layer is UNKNOWN (a provider output not opened), [top_sch] of the repetition is
+         mergedSchema(U, U) although Go has ONE value carrying U, and value.property (value.go:201-217) /
+         evaluateUnknownAccess (eval.go:762) derive the schema of a member from it: additionalProperties `false` or a type
+         reads as `true` below the repetition.
+   All three need a value merged over a base from which it takes a non-nil additionalProperties.  [hist_class] is decidable
+   on (world, name, definition): the model's run, in the world's mode, memoises a chain one of whose layers is merged over a
+   base from which it absorbs a non-nil additionalProperties - at the top or below a property both declare as an object -
+   or whose merged schema is changed by merging it with itself (a non-nil additionalProperties other than `true` at the top
+   or below properties).  Outside the class every mergedSchema the evaluator applies is idempotent and insensitive to
+   regrouping, so neither the history nor the repetition can show.  Measured (lib/verif/props/c06_schema_cases.py,
+   history_world: closed / map-like / nested provider records under and over literals, references before and after their
+   targets, up to four environments): 480 000 runs, 2 779 disagreements, every one of them inside the class (which holds half
+   of that family's runs, and about one run in seven of the other families: literals merged over or under closed provider
+   records).  The price: inside the class the additionalProperties arm of mergedSchema is judged by the schema clause's
+   oracle alone. *)
+Fixpoint sch_absorbs (fu : nat) (base top : Chain.sch) : bool :=
+  match fu with
+  | O => true
+  | S f =>
+    match base, top with
+    | Chain.ScObject bp ba, Chain.ScObject tp _ =>
+        match ba with Some _ => true | None => false end
+        || existsb (fun kt => match Chain.alookup (fst kt) bp with Some b => sch_absorbs f b (snd kt) | None => false end) tp
+    | _, _ => false
+    end
+  end.
+
+(* merging the schema with itself changes it: an object reachable through properties has a non-nil additionalProperties
+   other than `true` *)
+Fixpoint sch_unstable (fu : nat) (s : Chain.sch) : bool :=
+  match fu with
+  | O => true
+  | S f =>
+    match s with
+    | Chain.ScObject props addl =>
+        match addl with Some Chain.ScAlways => false | Some _ => true | None => false end
+        || existsb (fun kt => sch_unstable f (snd kt)) props
+    | _ => false
+    end
+  end.
+
+Fixpoint chain_absorbs (c : list Chain.layer) : bool :=
+  match c with
+  | [] => false
+  | l :: rest =>
+      match rest with
+      | [] => false
+      | _ :: _ => sch_absorbs Chain.sch_fuel (Chain.top_sch rest) (Chain.l_sch l) || sch_unstable Chain.sch_fuel (Chain.top_sch c)
+      end
+      || chain_absorbs rest
+  end.
+
+Definition hist_class (W : Eval.world) (name : string) (d : Eval.envdef) : bool :=
+  let '(_, s) := Eval.eval_env W EvalWire.model_fuel "" name d Eval.st0 in
+  existsb (fun kv => match snd kv with Some c => chain_absorbs c | None => false end) (Eval.memo s).
+
 (* 0 agree, 1 disagree, 2 the implementation's schema is outside the model's vocabulary, 3 no model schema,
-   4 agree only with the last merge of evalEnvironment left out (never expected; kept as a cross-check of the reading above) *)
+   4 agree only with the last merge of evalEnvironment left out (never expected; kept as a cross-check of the reading above);
+   inside [hist_class]: 5 disagree (1 or 4), 6 agree *)
 Definition cmp_verdict (W : Eval.world) (name : string) (d : Eval.envdef) (o : sobs) : N :=
   match o with
   | SSch _ s =>
@@ -468,7 +544,8 @@ Definition cmp_verdict (W : Eval.world) (name : string) (d : Eval.envdef) (o : s
           else match model_root_sch false W name d with
                | None => 3
                | Some sm =>
-                   if sch_eqb C08.jfuel sm si then 0
+                   if sch_eqb C08.jfuel sm si then (if hist_class W name d then 6 else 0)
+                   else if hist_class W name d then 5
                    else match model_root_sch true W name d with
                         | Some sm1 => if sch_eqb C08.jfuel sm1 si then 4 else 1
                         | None => 1
@@ -478,9 +555,9 @@ Definition cmp_verdict (W : Eval.world) (name : string) (d : Eval.envdef) (o : s
   | _ => 3
   end.
 
-(* part of [mismatch] of the main line (the two agree on every generated case: 23 940 runs of the thorough tier): the model's
-   schema of the root value differs from the implementation's in one of the three runs.  Schemas outside the model's
-   vocabulary and runs the model gives no schema for are skipped. *)
+(* part of [mismatch] of the main line: OUTSIDE [hist_class] the model's schema of the root value differs from the
+   implementation's in one of the three runs.  Schemas outside the model's vocabulary and runs the model gives no schema for
+   are skipped. *)
 Definition sch_mismatch (W : Eval.world) (name : string) (d : Eval.envdef) (c : scase) : bool :=
   let bad := fun (chk show : bool) (o : sobs) =>
                match cmp_verdict (with_mode W chk show) name d o with 1 | 4 => true | _ => false end in
@@ -494,11 +571,18 @@ Definition sch_mismatch (W : Eval.world) (name : string) (d : Eval.envdef) (c : 
                                       0 outside the hypothesis, 1 inside accepted, 2 inside rejected outside the known classes,
                                       4 inside but vocabulary not covered; inside rejected inside the known classes:
                                       5 A alone, 6 B alone, 7 C alone, 8 D alone, 9 E alone, 3 several classes together
-     (c06cmp name def world check show S)   measurement model vs implementation (cmp_verdict)                       *)
+     (c06cmp name def world check show S)   measurement model vs implementation (cmp_verdict)
+     (c06h name def world <sch...>)   the model's schema against the implementation's in the three runs and NOTHING else
+                                      (family history_world: built at the border of [hist_class]; its worlds also exercise the
+                                      model's repeated unknown layers, whose schema mergedSchema(U, U) can change the
+                                      diagnostics flag - selftest/witness/C06-model-repeated-unknown-layer.replay.json -
+                                      so value, flag and log of this family are not compared): mismatch = [sch_mismatch],
+                                      non-trivial = the check run is outside the class, i.e. really compared           *)
 Inductive ocase :=
 | OSch (d : Eval.envdef) (c : scase)
 | OClass (ds : list Eval.envdef) (c : scase)
-| OCmp (W : Eval.world) (name : string) (d : Eval.envdef) (o : sobs).
+| OCmp (W : Eval.world) (name : string) (d : Eval.envdef) (o : sobs)
+| OHist (W : Eval.world) (name : string) (d : Eval.envdef) (c : scase).
 
 Definition decode_other (x : sexp) : option ocase :=
   match x with
@@ -510,6 +594,11 @@ Definition decode_other (x : sexp) : option ocase :=
       match atom_str n, EvalWire.dec_envdef d, EvalWire.dec_world w, atom_bool chk, atom_bool show, dec_sobs s with
       | Some n', Some d', Some w', Some c', Some s', Some o' => Some (OCmp (with_mode w' c' s') n' d' o')
       | _, _, _, _, _, _ => None
+      end
+  | SList [Atom "c06h"; n; d; w; s] =>
+      match atom_str n, EvalWire.dec_envdef d, EvalWire.dec_world w, dec_scase s with
+      | Some n', Some d', Some w', Some s' => Some (OHist w' n' d' s')
+      | _, _, _, _ => None
       end
   | _ => None
   end.
@@ -523,4 +612,5 @@ Definition verdict_other (o : ocase) : N :=
       else if negb (sfail c) then 1
       else if known ds c then match known_class ds c with 1 => 5 | 2 => 6 | 3 => 7 | 4 => 8 | 5 => 9 | _ => 3 end else 2
   | OCmp W n d o => cmp_verdict W n d o
+  | OHist W n d c => verdict_bits (sch_mismatch W n d c) false false (negb (hist_class (with_mode W true false) n d))
   end.
